@@ -32,5 +32,17 @@ theorem eval_or (a b : BDD) (σ : Asg) : eval (or a b) σ = (eval a σ || eval b
 theorem eval_not (a : BDD) (σ : Asg) : eval (not a) σ = !(eval a σ) := by
   fun_induction not a <;> grind [eval, eval_mk, eval_mkConst]
 
+
+/-! ### leaf cases of `and` / `or` -/
+
+@[simp] theorem and_F_left (b : BDD) : BDD.and .F b = .F := by cases b <;> simp [BDD.and]
+@[simp] theorem and_F_right (a : BDD) : BDD.and a .F = .F := by cases a <;> simp [BDD.and]
+@[simp] theorem and_T_left (b : BDD) : BDD.and .T b = b := by cases b <;> simp [BDD.and]
+@[simp] theorem and_T_right (a : BDD) : BDD.and a .T = a := by cases a <;> simp [BDD.and]
+@[simp] theorem or_T_left (b : BDD) : BDD.or .T b = .T := by cases b <;> simp [BDD.or]
+@[simp] theorem or_T_right (a : BDD) : BDD.or a .T = .T := by cases a <;> simp [BDD.or]
+@[simp] theorem or_F_left (b : BDD) : BDD.or .F b = b := by cases b <;> simp [BDD.or]
+@[simp] theorem or_F_right (a : BDD) : BDD.or a .F = a := by cases a <;> simp [BDD.or]
+
 end BDD
 end Rsbdd
